@@ -652,6 +652,68 @@ func codecCase(name string, puts []putSpec, r *rand.Rand) Case {
 	return Case{Name: name, Lines: lines, Features: fs}
 }
 
+// interleavedSwapCases: a chunk stored in several parts of one buffer (chunk c, another chunk, chunk c again …),
+// a resizing string swap in an early part (the appended Put re-allocates the buffer) and a same-shape swap in
+// a later part, during ONE Range pass; then every reader view of the result
+func interleavedSwapCases(r *rand.Rand, n int) []Case {
+	var out []Case
+	for i := 0; i < n; i++ {
+		lines := []string{fmt.Sprintf("new i%d", i)}
+		c0, c1 := uint32(r.Intn(3)), uint32(3+r.Intn(3))
+		parts := 2 + r.Intn(3)
+		k := 0
+		var strAt []int // positions (among chunk c0's ops) of string ops, with their lengths
+		var strLen []int
+		var fixAt []int
+		for p := 0; p < parts; p++ {
+			m := 1 + r.Intn(3)
+			for j := 0; j < m; j++ {
+				off := c0<<14 + uint32(r.Intn(200))
+				if r.Intn(2) == 0 {
+					v := randVal(r, "s", false)
+					lines = append(lines, fmt.Sprintf("put 4 %d s %s", off, hexOf(v)))
+					strAt, strLen = append(strAt, k), append(strLen, len(v))
+				} else {
+					lines = append(lines, fmt.Sprintf("put 4 %d f8 %s", off, hexOf(randVal(r, "f8", false))))
+					fixAt = append(fixAt, k)
+				}
+				k++
+			}
+			lines = append(lines, fmt.Sprintf("put 2 %d f4 %s", c1<<14+uint32(r.Intn(200)), hexOf(randVal(r, "f4", false))))
+		}
+		if len(strAt) >= 1 && k >= 2 {
+			k1 := strAt[0]
+			big := make([]byte, 200+r.Intn(3000))
+			for j := range big {
+				big[j] = byte('A' + j%26)
+			}
+			// a later op: same-length string or an 8-byte value
+			var second string
+			for t := len(strAt) - 1; t > 0; t-- {
+				if strAt[t] > k1 && r.Intn(2) == 0 {
+					second = fmt.Sprintf("%d s %s", strAt[t], hexOf(bytes.Repeat([]byte{'z'}, strLen[t])))
+					break
+				}
+			}
+			if second == "" {
+				for _, f := range fixAt {
+					if f > k1 {
+						second = fmt.Sprintf("%d f8 %s", f, hexOf(randVal(r, "f8", false)))
+					}
+				}
+			}
+			if second != "" {
+				lines = append(lines, fmt.Sprintf("swaps %d %d s %s %s", c0, k1, hexOf(big), second))
+			} else {
+				lines = append(lines, fmt.Sprintf("swap %d %d s %s", c0, k1, hexOf(big)))
+			}
+		}
+		lines = append(lines, fmt.Sprintf("range %d", c0), fmt.Sprintf("range %d", c1), "seek", "chunks", "writeto")
+		out = append(out, Case{Name: fmt.Sprintf("interleaved-swaps-%d", i), Lines: lines, Features: []string{"swap", "swaps-one-pass", "interleaved-parts"}})
+	}
+	return out
+}
+
 // wireCases: serialised buffers / commits produced by the implementation, whole and truncated.
 func wireCases(r *rand.Rand, n int, rep *Report) []Case {
 	var out []Case
